@@ -110,6 +110,8 @@ pub struct LEntry {
     pub current: Option<u64>,
 }
 struct Serials(Vec<(u8, u64)>);
+/// further extension types, so that some spans carry ten types at once
+struct Pad<const N: usize>(#[allow(dead_code)] u64);
 
 struct SerialVisitor(Option<u64>);
 impl tracing_core::field::Visit for SerialVisitor {
@@ -166,6 +168,17 @@ impl<C: tracing_core::Collect + for<'a> LookupSpan<'a>> Subscribe<C> for RecLaye
             } else {
                 ext.insert(Serials(vec![(self.layer, v.0.unwrap_or(u64::MAX))]));
             }
+            // every fourth span gets nine more extension types from the first layer; a fresh span
+            // never has any of them yet
+            macro_rules! pads {
+                ($($n:literal),*) => {{
+                    $( if self.layer == 0 && ext.get_mut::<Pad<$n>>().is_some() { stale = true; } )*
+                    if self.layer == 0 && v.0.unwrap_or(1) % 4 == 0 {
+                        $( if ext.get_mut::<Pad<$n>>().is_none() { ext.insert(Pad::<$n>(v.0.unwrap_or(0))); } )*
+                    }
+                }};
+            }
+            pads!(0, 1, 2, 3, 4, 5, 6, 7, 8);
         }
         let mut e = self.observe(LKind::NewSpan, id, &ctx);
         e.stale = stale;
